@@ -231,19 +231,6 @@ def relabel(f: Callable[[int], int], tree: dict) -> dict:
     return N(k, tree["t"], [relabel(f, c) for c in tree["x"]], [relabel(f, c) for c in tree["y"]])
 
 
-def hashable_tree(tree: dict) -> bool:
-    k = tree["k"]
-    if k in ("leaf", "fset"):
-        return True
-    if k == "oleaf":
-        return tree["y"][0] == 4
-    if k in ("tuple", "nt"):
-        return all(hashable_tree(c) for c in tree["x"])
-    if k == "dc":
-        return tree["t"] == DC_FROZEN and all(hashable_tree(c) for c in tree["x"] + tree["y"])
-    return False
-
-
 def build(tree: dict, family: str, leaf_hook: Callable[[dict, Any], Any] | None = None) -> Any:
     """
     Real Python object of a tree.  `leaf_hook(node, obj)` may replace the object built for a
@@ -372,21 +359,6 @@ def strip(tree: dict) -> dict:
     if k in ("set", "fset"):
         return N(k, tree["t"], [strip(c) for c in tree["x"]], [])
     return N(k, tree["t"], [strip(c) for c in tree["x"]], [strip(c) for c in tree["y"]])
-
-
-def leaves_of(tree: dict) -> list[dict]:
-    """Leaf-like nodes on the traversal (frozensets and opaque leaves are not entered)."""
-    if tree["k"] in LEAFLIKE:
-        return [tree]
-    out: list[dict] = []
-    for c in tree["x"] + (tree["y"] if tree["k"] in ("dict", "dc") else []):
-        out.extend(leaves_of(c))
-    return out
-
-
-def depth_of(tree: dict) -> int:
-    cs = [] if tree["k"] in LEAFLIKE else tree["x"] + (tree["y"] if tree["k"] in ("dict", "dc") else [])
-    return 1 + max((depth_of(c) for c in cs), default=0)
 
 
 # --------------------------------------------------------------------------------------------
